@@ -25,6 +25,7 @@ type Endpoint struct {
 	// Taken counts how many entries of Out the harness has consumed.
 	Taken    int
 	writeErr error
+	stalled  bool
 	name     string
 }
 
@@ -57,6 +58,14 @@ func (e *Endpoint) Read(p []byte) (int, error) {
 func (e *Endpoint) Write(p []byte) (int, error) {
 	e.mu.Lock()
 	defer e.mu.Unlock()
+	if e.closed {
+		return 0, net.ErrClosed
+	}
+	// a remote side that stopped reading: the writer blocks until the
+	// connection is closed or the stall ends.
+	for e.stalled && !e.closed {
+		e.cond.Wait()
+	}
 	if e.closed {
 		return 0, net.ErrClosed
 	}
@@ -112,6 +121,15 @@ func (e *Endpoint) FailReads(err error) {
 func (e *Endpoint) FailWrites(err error) {
 	e.mu.Lock()
 	e.writeErr = err
+	e.mu.Unlock()
+}
+
+// StallWrites makes writes block (the remote side no longer drains the
+// connection) until the endpoint is closed or StallWrites(false) is called.
+func (e *Endpoint) StallWrites(on bool) {
+	e.mu.Lock()
+	e.stalled = on
+	e.cond.Broadcast()
 	e.mu.Unlock()
 }
 
